@@ -209,6 +209,17 @@ def main(rep, tier, only):
             if not why and not any(BUF in r for r in ro):
                 why = "the `ok` arm does not return the converted buffer"
             if not why:
+                # the count handed to buffer::written() is measured from the START OF THE WRITE AREA the facet wrote into
+                wcalls = [n for (n, d, q) in L.calls_in(u, fn.get("body")) if q.endswith("buffer::object::written")]
+                if len(wcalls) != 1:
+                    why = "buffer::written is called %d times per conversion round (expected once)" % len(wcalls)
+                else:
+                    at = T.show(T.snorm(u, fn, wcalls[0]["args"][0])).replace(" ", "")
+                    ok_w = ("distance(%s.write_data()," % BUF) in at or ("-%s.write_data())" % BUF) in at
+                    if not ok_w or ".read_data()" in at or ".begin()" in at:
+                        why = ("the number of elements reported to buffer::written() is `%s`: it must be the distance from %s.write_data() to the "
+                               "facet's output position (measuring from anywhere else moves the read end past the converted data)" % (at, BUF))
+            if not why:
                 # libstdc++ keeps an incomplete trailing multi-byte sequence in the conversion state and reports `ok`:
                 # the buffer is a success only if std::mbsinit(&state) holds for the state handed to the facet
                 guarded = False
